@@ -12,7 +12,14 @@
 //!           {"op":"compact"}]}
 //!           {"op":"fill","n":30,"bucket":5}   n writes of fresh small objects whose encoding keys all fall
 //!                                             into one index bucket (recorded as n ordinary write events)
+//!                                             ("of":"a" instead of "bucket": the bucket of table payload a)
 //!           {"op":"churn","n":11,"bucket":5}  n write+remove pairs of such objects (dyn)
+//!           {"op":"par","t":8,"m":12}         t threads store m fresh objects each at the same time (barrier
+//!                                             before every round; dyn / inst); recorded as t*m write events
+//!                                             after all threads have returned ("par": batch number) - the
+//!                                             judge needs no order among them: every write that said ok must
+//!                                             be readable afterwards.  {"op":"par","t":8,"ps":[names]} stores
+//!                                             the named table payloads instead (replay).
 //! After the last operation every payload of the table (and every fill object) is read once more ("audit":1).
 //!
 //! Component "dyn":  Container::write/read/query/remove on a DynamicContainer, flush_all_updates /
@@ -309,6 +316,53 @@ impl World {
         }
     }
 
+    /// `t` threads store the payloads at the same time: round r = payloads r*t .. r*t+t-1, one per thread,
+    /// all threads pass a barrier before every round.  Returns the result of each write (index-aligned).
+    fn par_write(&self, ps: &[&Payload], t: usize) -> Vec<String> {
+        use std::sync::{Barrier, Mutex};
+        let n = ps.len();
+        let rounds = n.div_ceil(t);
+        let barrier = Barrier::new(t);
+        let results: Vec<Mutex<String>> = (0..n).map(|_| Mutex::new("err:NotRun".to_string())).collect();
+        let compress = self.compress;
+        let (dync, inst) = match &self.sut {
+            Sut::Dyn(c) => (Some(c), None),
+            Sut::Inst(i) => (None, Some(i)),
+            Sut::Dead(k) => return vec![k.clone(); n],
+            Sut::Arch(_) => panic!("driver: par is only defined for components dyn and inst"),
+        };
+        std::thread::scope(|s| {
+            for th in 0..t {
+                let (barrier, results) = (&barrier, &results);
+                s.spawn(move || {
+                    let rt = rt();
+                    for r in 0..rounds {
+                        barrier.wait();
+                        let i = r * t + th;
+                        if i >= n {
+                            continue;
+                        }
+                        let p = ps[i];
+                        let res = guarded(|| {
+                            let r = if let Some(c) = dync {
+                                rt.block_on(c.write(&p.key, &p.data))
+                            } else {
+                                rt.block_on(inst.expect("inst").write_file(p.data.clone(), compress)).map(|_| ())
+                            };
+                            match r {
+                                Ok(()) => "ok".to_string(),
+                                Err(e) => kind(&e),
+                            }
+                        })
+                        .unwrap_or_else(|_| "panic".to_string());
+                        *results[i].lock().expect("result slot") = res;
+                    }
+                });
+            }
+        });
+        results.into_iter().map(|m| m.into_inner().expect("result slot")).collect()
+    }
+
     fn remove(&mut self, p: &Payload) -> String {
         let key = self.key_of(p);
         match &mut self.sut {
@@ -376,12 +430,20 @@ fn next_in_bucket(bucket: u8, cursor: &mut HashMap<u8, u64>) -> (Payload, usize)
 /// fill / churn -> ordinary write (+ remove) operations on fresh objects of one bucket
 fn expand(ops: &[Value], table: &mut Vec<Payload>) -> Vec<Value> {
     let mut cursor: HashMap<u8, u64> = HashMap::new();
+    let mut pcur_v = 0u64;
+    let pcur = &mut pcur_v;
     let mut out = vec![];
     for op in ops {
         let kind = op["op"].as_str().unwrap_or("");
         if kind == "fill" || kind == "churn" {
             let n = op["n"].as_u64().expect("fill n");
-            let bucket = op.get("bucket").and_then(Value::as_u64).unwrap_or(5) as u8 & 15;
+            let bucket = match op.get("of").and_then(Value::as_str) {
+                Some(n) => {
+                    let t = table.iter().find(|x| x.name == n).unwrap_or_else(|| panic!("driver: payload {n} not in table"));
+                    IndexManager::bucket_for_key(&EncodingKey::from_bytes(t.key))
+                }
+                None => op.get("bucket").and_then(Value::as_u64).unwrap_or(5) as u8 & 15,
+            };
             for _ in 0..n {
                 let (p, len) = next_in_bucket(bucket, &mut cursor);
                 out.push(json!({"op": "write", "p": p.name, "fill": len}));
@@ -390,6 +452,23 @@ fn expand(ops: &[Value], table: &mut Vec<Payload>) -> Vec<Value> {
                 }
                 table.push(p);
             }
+        } else if kind == "par" && op.get("ps").is_none() {
+            // fresh objects w<j> of mixed sizes (0.4 .. 130 KiB): a fixed function of j
+            const LENS: [usize; 8] = [700, 3000, 20_000, 70_000, 1500, 9000, 130_000, 400];
+            let t = op["t"].as_u64().expect("par t");
+            let m = op["m"].as_u64().expect("par m");
+            let mut names = vec![];
+            for _ in 0..t * m {
+                let j = *pcur;
+                *pcur += 1;
+                let name = format!("w{j}");
+                let len = LENS[(j % 8) as usize] + j as usize;
+                let data = content(&name, "plain", len);
+                let key = *EncodingKey::from_data(&blte_wrap(&data)).as_bytes();
+                table.push(Payload { md5: md5hex(&data), name: name.clone(), data, key });
+                names.push(name);
+            }
+            out.push(json!({"op": "par", "t": t, "ps": names}));
         } else {
             out.push(op.clone());
         }
@@ -426,8 +505,35 @@ fn run_program(prog: &Value, out: &Emit) {
             ops.push(json!({"op": "read", "p": p.name, "audit": 1}));
         }
     }
+    let mut batch = 0u64;
     for op in &ops {
         let name_ = op["op"].as_str().unwrap();
+        if name_ == "par" {
+            out.begin(op);
+            batch += 1;
+            let t = op["t"].as_u64().expect("par t") as usize;
+            let ps: Vec<&Payload> = op["ps"]
+                .as_array()
+                .expect("par ps")
+                .iter()
+                .map(|n| {
+                    let n = n.as_str().unwrap();
+                    table.iter().find(|x| x.name == n).unwrap_or_else(|| panic!("driver: payload {n} not in table"))
+                })
+                .collect();
+            let before = w.dlen();
+            let res = w.par_write(&ps, t.max(1));
+            let after = w.dlen();
+            for (p, r) in ps.iter().zip(res) {
+                seq += 1;
+                let (b0, b30) = sniff(&p.data);
+                // off/end: the batch as a whole (the individual positions are the store's business)
+                out.ev(json!({"op": "write", "p": p.name, "par": batch, "t": t, "fill": p.data.len(), "seq": seq,
+                              "len": p.data.len(), "md5": p.md5, "blte0": b0, "blte30": b30, "key": hex(&p.key),
+                              "off": before, "end": after, "res": r, "dlen": after}));
+            }
+            continue;
+        }
         let mut ev = op.clone();
         let pay = op.get("p").and_then(|p| p.as_str()).map(|n| table.iter().find(|x| x.name == n).unwrap_or_else(|| panic!("driver: payload {n} not in table")));
         out.begin(op);
@@ -527,6 +633,7 @@ fn bulk_program(rng: &mut Rng) -> Value {
     }
     let mut ops = vec![];
     let mut written = 0usize;
+    let mut removed: Vec<u64> = vec![];
     while written < npay {
         let x = rng.below(100);
         if x < 86 || written == 0 {
@@ -535,7 +642,13 @@ fn bulk_program(rng: &mut Rng) -> Value {
         } else if x < 94 {
             ops.push(json!({"op": "read", "p": format!("p{}", rng.below(written as u64))}));
         } else if x < 96 && comp == "dyn" {
-            ops.push(json!({"op": "remove", "p": format!("p{}", rng.below(written as u64))}));
+            let i = rng.below(written as u64);
+            ops.push(json!({"op": "remove", "p": format!("p{i}")}));
+            removed.push(i);
+        } else if x < 97 && !removed.is_empty() {
+            // the same bytes again, much later: the tombstone and the new entry end up in different log pages
+            let i = removed[rng.below(removed.len() as u64) as usize];
+            ops.push(json!({"op": "write", "p": format!("p{i}")}));
         } else if x < 98 {
             ops.push(json!({"op": "reopen"}));
         } else if rng.chance(1, 3) {
@@ -598,6 +711,8 @@ fn random_program(rng: &mut Rng, len: usize) -> Value {
             if rng.chance(1, 2) { json!({"op": "flush"}) } else { json!({"op": "flushb", "p": pname(*rng.pick(&written))}) }
         } else if comp == "arch" && x < 94 {
             json!({"op": "compact"})
+        } else if comp != "arch" && x >= 98 {
+            json!({"op": "par", "t": 2 + rng.below(5), "m": 1 + rng.below(4)})
         } else {
             json!({"op": "read", "p": pname(*rng.pick(&written))})
         };
